@@ -166,14 +166,19 @@ def execute(darsia, ctx, key):
             cls = darsia.WassersteinDistanceNewton if method == "newton" else darsia.WassersteinDistanceBregman
             ctx[ck] = cls(grid, None, opts)
         a, b = _pair(darsia, idx)
-        return np.array([ctx[ck](a, b)])
+        if idx == 9:           # pair 9: identical images (nothing to transport - the iteration stagnates at once)
+            b = a.copy()
+        with warnings.catch_warnings():
+            warnings.simplefilter("ignore")
+            with np.errstate(all="ignore"):
+                return np.array([ctx[ck](a, b)])
     if name == "AA":           # AA|scale : Anderson-accelerated fixed-point iteration over restart boundaries
         aa = ctx.setdefault("AA", darsia.AndersonAcceleration(dimension=None, depth=2, restart=3))
         c = float(op[1])
         x = np.zeros(5)
         b = np.arange(1.0, 6.0)
         for it in range(8):
-            g = 0.5 * np.cos(c * x) + 0.1 * b
+            g = (0.5 * np.cos(c * x) + 0.1 * b) if c != 0.0 else x.copy()      # (AA|0.0: the iteration starts in its fixed point)
             x = aa(g, g - x, it)
         return x
     raise KeyError(key)
@@ -196,12 +201,12 @@ ALPHABET = {
     "mg-direct-shapes": ["MGD|m", "MGD|n", "MGD|o"],
     "jacobi-direct-shapes": ["JD|a", "JD|b", "JD|m"],
     "mg-coefficients-replaced": ["MGU|A3|A4", "MGU|2.0|0.7", "MGU|2.0|A4", "MGU|A5|0.7"],
-    "newton-direct": ["W1|newton|direct|0", "W1|newton|direct|1"],
-    "bregman-amg": ["W1|bregman|amg|0", "W1|bregman|amg|1"],
+    "newton-direct": ["W1|newton|direct|0", "W1|newton|direct|1", "W1|newton|direct|9"],
+    "bregman-amg": ["W1|bregman|amg|0", "W1|bregman|amg|1", "W1|bregman|amg|9"],
     "newton-amg-multilevel": ["W1|newton|amgml|0", "W1|newton|amgml|1", "AA|1.0"],
     "bregman-cg-multilevel": ["W1|bregman|cgml|0", "W1|bregman|cgml|1"],
-    "bregman-adaptive": ["W1|adaptive|direct|0", "W1|adaptive|direct|1"],
-    "anderson": ["AA|1.0", "AA|2.0"],
+    "bregman-adaptive": ["W1|adaptive|direct|0", "W1|adaptive|direct|1", "W1|adaptive|direct|9"],
+    "anderson": ["AA|1.0", "AA|2.0", "AA|0.0"],
 }
 
 
